@@ -139,10 +139,11 @@ def readLocked : Nat â†’ List String â†’ Option (List (Text Ã— List (LockEntry Ã
   | _, _ => none
 
 def showImage (arch : Text) (l : List Text) : Text :=
-  (enc (if l.isEmpty then "?".toList else arch) ++ ":" ++ ",".intercalate (l.map enc)).toList
+  (enc arch ++ ":" ++ ",".intercalate (l.map enc)).toList
 
+/-- images (or locked lists) without packages are not shown: a build for an empty list emits an empty image or none -/
 def showImages (imgs : List (Text Ã— List Text)) : String :=
-  ";".intercalate ((sortS (imgs.map fun (a, l) => showImage a l)).map String.ofList)
+  ";".intercalate ((sortS ((imgs.filter (!Â·.2.isEmpty)).map fun (a, l) => showImage a l)).map String.ofList)
 
 def glueHandle (args : List String) : Option String :=
   match args with
